@@ -272,7 +272,7 @@ def r_cross(ctx, rng, Y, n, fam):
     objs['subnormal-with-peak'] = tail
     for name, T in objs.items():
         for (dmin, dmax), use_cache in itertools.product([(0, 0), (1, 1),
-                (0, 2)], [False, True]):
+                (0, 2), (2, 2), (2, 3), (3, 3)], [False, True]):
             Y0 = gen.cores(rng, n, [1] + [int(rng.integers(1, 3))] * (d - 1)
                 + [1], 'normal')
             info = {}
@@ -438,9 +438,53 @@ def r_accuracy_ratio(ctx, rng):
     ctx.event('accuracy-norm-ratio-beyond-2^1024')
 
 
+def r_unbalanced_product(ctx, rng):
+    """Plain scalar product of two finite degenerate tensors (rank 1, two or
+    three modes) whose scale sits in different cores: the exact value is an
+    ordinary double, every partial product formed in the natural order is."""
+    import teneva
+    for _ in range(200):
+        d = int(rng.integers(2, 4))
+        n = [int(rng.integers(1, 4)) for _ in range(d)]
+        e1 = [int(rng.integers(80, 151)) for _ in range(d)]
+        tot = int(rng.integers(-100, 101))
+        e2 = [int(rng.integers(20, 151))] + [int(rng.integers(-280, 1))
+            for _ in range(d - 2)]
+        e2.append(tot - sum(e1) - sum(e2))
+        # the documented algorithm forms the product of the two cores of one
+        # position first: those pair products, and the running values after
+        # each position, are kept inside the double range
+        if all(-300 <= x <= 300 for x in e2) and all(
+                abs(a_ + b_) <= 290 for a_, b_ in zip(e1, e2)) and all(
+                abs(sum(e1[:k + 1]) + sum(e2[:k + 1])) <= 290
+                for k in range(d)):
+            break
+    else:
+        return
+    Y1 = [rng.uniform(0.5, 1.5, size=(1, k, 1)) * 10.0 ** x
+        for k, x in zip(n, e1)]
+    Y2 = [rng.uniform(0.5, 1.5, size=(1, k, 1)) * 10.0 ** x
+        for k, x in zip(n, e2)]
+    if rng.random() < 0.2:
+        Y2[-1][...] = 0.
+    try:
+        v = teneva.mul_scalar(Y1, Y2)
+    except Exception as ex:
+        ctx.viol('scalars', f'mul_scalar of unbalanced rank-1 tensors raised '
+            f'{type(ex).__name__}: {ex}')
+        return
+    ctx.check('scalars', bool(np.isfinite(v)), lambda: f'mul_scalar of two '
+        f'finite rank-1 tensors (core scales 1e{e1} and 1e{e2}) returned '
+        f'{v!r}; the exact value is ~1e{tot}')
+    ctx.event('unbalanced-plain-scalar-product')
+
+
 def r_extreme(ctx, rng):
-    if rng.random() < 0.3:
+    u_ = rng.random()
+    if u_ < 0.25:
         return r_accuracy_ratio(ctx, rng)
+    if u_ < 0.5:
+        return r_unbalanced_product(ctx, rng)
     """Finite cores whose tensor is so small that Gram matrices underflow
     to exactly zero (norm < 1e-162, float32: < 1e-23), or so large that the
     norm is not a double (> 1e308; stabilised rounding only): the results
